@@ -119,6 +119,44 @@ impl Monitor for C04 {
                 }
             }
         }
+        // On the wire: once the session is established, a batch of stream datagrams leaves only an
+        // uplink that has completed registration since its last reset (a reset discards what was
+        // queued; what the registration link carries is keepalives and handshake packets).
+        if ctx.has_connected_pre {
+            for (k, w) in ctx.wire.iter().enumerate() {
+                if w.call != UplinkCall::SendBatch || w.offered.is_empty() {
+                    continue;
+                }
+                // the state that counts is the one the flush found: after the main action for
+                // sends of the trailing part, before it otherwise
+                let views = if k < ctx.wire_mid { ctx.pre } else { ctx.mid };
+                let Some(v) = views.iter().find(|v| v.fd == Some(w.fd)) else { continue };
+                let registered = self.truth.links.get(&v.conn_id).is_some_and(|l| l.registered) && v.connected;
+                // (a link that has never been registered may still flush what the pre-registration
+                // path queued on it before another link's REG3 established the session)
+                // (nor is a link judged that the receiver rejected with REG_ERR: nothing was reset,
+                // the residue of its queue - routed while it was eligible - still goes out)
+                let was_reset = self.truth.links.get(&v.conn_id).is_some_and(|l| l.reset_since_registered);
+                out.probe("c04.batch_on_the_wire");
+                if !registered && was_reset && !matches!(ctx.kind, StepKind::Client(_)) {
+                    out.violate(
+                        &format!("{M}.wire"),
+                        "stream_data_on_unregistered_uplink",
+                        ctx.idx,
+                        format!(
+                            "a batch of {} stream datagram(s) (first: {} bytes, sequence {:?}) left link {:x} in a {} step although the link was reset and has not completed registration since (connected={}, phase {:?})",
+                            w.offered.len(),
+                            w.offered[0].len(),
+                            data_seq(&w.offered[0]),
+                            v.conn_id,
+                            ctx.kind.name(),
+                            v.connected,
+                            v.phase
+                        ),
+                    );
+                }
+            }
+        }
         // Out-of-band sends carry only keepalives and handshake packets.
         for w in ctx.wire {
             if w.call == UplinkCall::Send {
